@@ -79,6 +79,17 @@ def lp_encoding(ctx, rule):
                 if is_call(e, 'Problem::add_var'):
                     free = e[2][2] == ('agg', 'tuple', (('const', '-inf'), ('const', 'inf'))) and e[2][1][0] == 'param'
         if not free:
+            # the variables are created in a loop over the cost vector and pushed onto the variable list, instead of map + collect
+            av = [(bb, R.call_args(bb), literals(b, R, bb)) for bb, t in b.calls_to('Problem::add_var')]
+            if len(av) == 1:
+                bb_, a_, lits_ = av[0]
+                item = [x for x in walk(a_[1]) if is_call(x, 'Iterator::next')]
+                # as_linprog has one parameter besides self: the cost vector
+                from_cost = bool(item) and any(isinstance(x, tuple) and len(x) == 2 and x[0] == 'param' and x[1] != 'self' for x in walk(item[0]))
+                every = all(l[0] == 'is' and is_call(l[1], 'Iterator::next') for l in lits_)
+                pushed = [R.call_args(pb) for pb, t in b.calls_to('Vec::push') if any(is_call(x, 'Problem::add_var') for x in walk(R.call_args(pb)[1]))]
+                free = a_[2] == ('agg', 'tuple', (('const', '-inf'), ('const', 'inf'))) and from_cost and every and len(pushed) == 1
+        if not free:
             problems.append('variables are not free (bounds must be (-inf, +inf)) with the cost coefficient of their own position')
         if len(ac) != 1:
             problems.append('expected one add_constraint per row')
